@@ -19,6 +19,8 @@ suite=PASS
 go build ./... >/dev/null 2>&1 || suite=BUILD-FAIL
 if [ $suite = PASS ]; then go test -vet=off -count=1 ./... >"$root/suite.log" 2>&1 || suite=FAIL; fi
 echo "mutant $name: repository suite: $suite"
+# In a sweep only changes that the repository's own suite accepts are of interest.
+if [ "${MUTANT_REQUIRE_SUITE:-0}" = 1 ] && [ "$suite" != PASS ]; then exit 3; fi
 # overlay: standard overlay computed from the worktree + every changed/added file
 OV=$(VERIF_REPO="$wt" VERIF_OVERLAY_OUT="$root/ov" python3 "$VERIF_ROOT/scripts/mkoverlay.py") || exit 2
 python3 - "$OV" "$wt" <<'PY'
